@@ -14,16 +14,24 @@ Definition hstate := list hrow.
 Inductive hpred :=
 | HAll
 | HIds (l : list Z)
+| HKeys (l : list Z)   (* the records of a write named through the Model / Delete value: one record
+                          or a slice of records with these keys (0 = a record without a key) *)
 | HMod (m r : Z)
 | HValIs (v : Z)
 | HOr (a b : hpred)
 | HAnd (a b : hpred)
 | HNot (a : hpred).
 
+(* schema.GetIdentityFieldValuesMap skips the records whose key is zero *)
+Definition named_keys (l : list Z) : list Z := filter (fun k => negb (k =? 0)) l.
+
 Fixpoint holds (p : hpred) (i v : Z) : bool :=
   match p with
   | HAll => true
   | HIds l => existsb (Z.eqb i) l
+  (* callbacks/update.go ConvertToAssignments, callbacks/delete.go, soft_delete.go: the keys of the
+     records that have one become `key IN (...)`; when no record has a key no condition is added *)
+  | HKeys l => match named_keys l with [] => true | ks => existsb (Z.eqb i) ks end
   | HMod m r => (i mod m) =? r
   | HValIs w => v =? w
   | HOr a b => holds a i v || holds b i v
